@@ -11,6 +11,7 @@ import GambitV.Gen.PyReportable
 import GambitV.Gen.PyClassify
 import GambitV.Gen.PyResultItem
 import GambitV.Gen.PyRefDb
+import GambitV.Gen.PyCalcFiles
 import GambitV.Model.Bulk
 import GambitV.Model.Indexing
 import GambitV.Spec.Taxonomy
@@ -109,5 +110,19 @@ def refdbInit (attr : Option Bool) (gids : List (Option Nat)) (sids : List Nat) 
     | .raised e => "err:" ++ e.name
     | .fuelOut => "!fuel"
   cmp "ReferenceDatabase.__init__" Gen.refdb_init.untranslatable g real
+
+/-- `calc_file_signatures` on files `0 … n-1` whose signatures are abstracted to their own index (`ok i` = file `i` succeeds), with the
+completion order `σ` (`none` = the sequential branch): `ok` = the list in file order, `err` = the call raises -/
+def calcFiles (oks : List Bool) (sigma : Option (List Nat)) (realIsErr : Bool) : Option String :=
+  let n := oks.length
+  let R : List (Option Nat) := (List.range n).map (fun i => if oks.getD i false then some i else none)
+  let g := match sigma with
+    | none => Gen.calc_file_signatures R [] () (List.range n) () none none none
+    | some σ => Gen.calc_file_signatures R σ () (List.range n) () none none (some ())
+  let gs := match g with
+    | .ok l => if l == (List.range n).map some then "ok" else "ok-but-wrong-list"
+    | .raised _ => "err"
+    | .fuelOut => "!fuel"
+  cmp "calc_file_signatures" Gen.calc_file_signatures.untranslatable gs (if realIsErr then "err" else "ok")
 
 end Driver.PyGen
